@@ -73,3 +73,18 @@ pub broadcast proof fn lemma_skip_skip(s: Seq<u8>, a: int, b: int)
 {
     assert(s.skip(a).skip(b) =~= s.skip(a + b));
 }
+
+pub proof fn lemma_prefix_concat(w: Seq<u8>, a: Seq<u8>, b: Seq<u8>)
+    requires a.is_prefix_of(b),
+    ensures (w + a).is_prefix_of(w + b),
+{
+    assert forall|i: int| 0 <= i < (w + a).len() implies (w + a)[i] == (w + b)[i] by {
+        if i >= w.len() { assert(a[i - w.len()] == b[i - w.len()]); }
+    }
+}
+pub proof fn lemma_prefix_trans(a: Seq<u8>, b: Seq<u8>, c: Seq<u8>)
+    requires a.is_prefix_of(b), b.is_prefix_of(c),
+    ensures a.is_prefix_of(c),
+{
+    assert forall|i: int| 0 <= i < a.len() implies a[i] == c[i] by { assert(a[i] == b[i]); assert(b[i] == c[i]); }
+}
